@@ -106,7 +106,11 @@ func TestC07(t *testing.T) {
 			}
 			col.Sample("acyclic", 2, map[string]any{"graph": sample})
 		}
-		if o.Res.Exit == 0 && o.Exists {
+		hasTodo := false
+		for _, sv := range c.Services {
+			hasTodo = hasTodo || sv.IsTodo()
+		}
+		if o.Res.Exit == 0 && o.Exists && !hasTodo { // a placeholder fails at run time by design: nothing to probe
 			q.add(cc, o.Out, scriptAll(c))
 		}
 	}
@@ -213,7 +217,7 @@ func TestC07(t *testing.T) {
 		if !ev.Mine(idx) {
 			continue
 		}
-		g := gen.GraphSpec{NSvc: 2, NTag: 2, DecTag: []int{0}, Place: (m / 3) % 3}
+		g := gen.GraphSpec{NSvc: 2, NTag: 2, DecTag: []int{0}, Place: (m / 3) % 3, TodoTagged: m%5 == 0}
 		bit := func(b int) bool { return m&(1<<b) != 0 }
 		for b := 0; b < 4; b++ {
 			if bit(b) {
